@@ -284,7 +284,7 @@ func (r *Rng) Gfx(n int) *rwp.HWCGfx {
 	g := &rwp.HWCGfx{ImageType: rwp.HWCGfx_ImageTypeE(r.Intn(3)), W: uint32(1 + r.Intn(128)), H: uint32(1 + r.Intn(64)), ImageData: r.Bytes(n)}
 	if r.Bool() {
 		g.XYoffset = true
-		g.X, g.Y = uint32(r.Intn(100)), uint32(r.Intn(100))
+		g.X, g.Y = uint32(r.Pick([]int{0, 0, 1, 17, 99})), uint32(r.Pick([]int{0, 0, 3, 31, 99}))
 	} else if r.Intn(4) == 0 {
 		g.X, g.Y = uint32(r.Intn(100)), uint32(r.Intn(100))
 	}
@@ -711,6 +711,22 @@ func genC01(tier string, rng *Rng) {
 			ids = append(ids, 40, 41)
 		}
 		runC01("gfx-length-sweep", one(stMsg(&rwp.HWCState{HWCIDs: ids, HWCGfx: g})))
+	}
+	// offset flag x offset values (0 is a legal offset: top-left corner) x format x lengths around 170
+	for _, xy := range []bool{false, true} {
+		for _, x := range []uint32{0, 1, 37, 1<<32 - 1} {
+			for _, y := range []uint32{0, 2, 63, 1 << 31} {
+				for ty := 0; ty < 3; ty++ {
+					for _, n := range []int{1, 169, 170, 171, 341} {
+						if (ty+n+int(x%7))%3 != 0 && !thorough && n != 1 {
+							continue
+						}
+						g := &rwp.HWCGfx{ImageType: rwp.HWCGfx_ImageTypeE(ty), W: 64, H: 32, XYoffset: xy, X: x, Y: y, ImageData: rng.Bytes(n)}
+						runC01("gfx-offset-grid", one(stMsg(&rwp.HWCState{HWCIDs: []uint32{11}, HWCGfx: g})))
+					}
+				}
+			}
+		}
 	}
 	for _, k := range []int{5, 6, 7, 10, 20, 35} {
 		for d := -1; d <= 1; d++ {
